@@ -147,6 +147,17 @@ void harness(void)
   LOAD_INPUTS();
   u8 key[16], seed[SEEDLEN + 8];
   memcpy(key, IN.key, 16);
+  /* boundary-byte obligations: chosen plaintext bytes concrete (values that alias EOF / NUL / newline in careless code: 0xFF, 0xFE -> 0xFF
+     under the marker cipher, 0x00, 0x0A) so that a read position that depends on the byte VALUE stays concrete in the query */
+#ifdef FIX1_OFF
+  IN.plain[FIX1_OFF] = FIX1_VAL;
+#endif
+#ifdef FIX2_OFF
+  IN.plain[FIX2_OFF] = FIX2_VAL;
+#endif
+#ifdef FIX3_OFF
+  IN.plain[FIX3_OFF] = FIX3_VAL;
+#endif
   for (u32 i = 0; i < SEEDLEN; i++) { ASSUME(IN.seed[i] != 0); seed[i] = IN.seed[i]; }     /* r_buf is used up to its first NUL (strlen) */
   seed[SEEDLEN] = 0;
 #if MODEL
